@@ -5,14 +5,16 @@ import QuillModel.Backend.ConsProofsIds
 namespace Backend.PA
 open Backend Spsc
 
+variable {φ : Nat → Nat}
+
 theorem cntA_of_ths {s s' : BSt} (h : s'.ths = s.ths) (id : Nat) : cntA s' id = cntA s id := by
   simp only [cntA, h]
 
 theorem cntB_of_actors {s s' : BSt} (h : s'.actors = s.actors) (id : Nat) : cntB s' id = cntB s id := by
   simp only [cntB, h]
 
-theorem InvB.of_same {s s' : BSt} (h : InvB s) (h1 : s'.actors = s.actors) (h2 : s'.nextId = s.nextId)
-    (h3 : ∀ id, cntA s' id = cntA s id) : InvB s' :=
+theorem InvBφ.of_same {s s' : BSt} (h : InvBφ φ s) (h1 : s'.actors = s.actors) (h2 : s'.nextId = s.nextId)
+    (h3 : ∀ id, cntA s' id = cntA s id) : InvBφ φ s' :=
   ⟨fun id => by unfold tot; rw [h3, cntB_of_actors h1]; exact h.uniq id,
    fun id hid => by unfold tot; rw [h3, cntB_of_actors h1]; exact h.lt id (h2 ▸ hid),
    fun a => by rw [h1]; exact h.ua a⟩
@@ -34,11 +36,11 @@ theorem accs_setTh (s : BSt) (i : Nat) (f : Th → Th) (hf : ∀ t, (f t).accept
   | none => rfl
   | some t => simp only [Option.map_some]; split <;> simp [hf]
 
-theorem InvB.of_accs {s s' : BSt} (h : InvB s) (h1 : s'.actors = s.actors) (h2 : s'.nextId = s.nextId)
-    (h3 : accs s' = accs s) : InvB s' := h.of_same h1 h2 (fun id => cntA_of_accs h3 id)
+theorem InvBφ.of_accs {s s' : BSt} (h : InvBφ φ s) (h1 : s'.actors = s.actors) (h2 : s'.nextId = s.nextId)
+    (h3 : accs s' = accs s) : InvBφ φ s' := h.of_same h1 h2 (fun id => cntA_of_accs h3 id)
 
-theorem InvB.setTh_same {s : BSt} (h : InvB s) (i : Nat) (f : Th → Th)
-    (hf : (f (s.th i)).accepted = (s.th i).accepted) : InvB (s.setTh i f) :=
+theorem InvBφ.setTh_same {s : BSt} (h : InvBφ φ s) (i : Nat) (f : Th → Th)
+    (hf : (f (s.th i)).accepted = (s.th i).accepted) : InvBφ φ (s.setTh i f) :=
   h.of_same rfl rfl (fun id => cntA_setTh_same s i f id hf)
 
 /-- the state between the start of an enqueue attempt of `st` by actor `a` and its end -/
@@ -62,13 +64,13 @@ theorem Mid.of_eq {s sM sM' : BSt} {a : Nat} {e : Nat → Nat} (h : Mid s a sM e
    fun id => by rw [cntA_of_ths h1]; exact h.ca id⟩
 
 /-- what is left to place: apart from what actor `a` has parked, the id of `st` is unused -/
-structure Room (s : BSt) (a : Nat) (st : Stmt) : Prop where
-  le : ∀ id, cntA s id + cntBo s a id + cntL id [st] ≤ 1
-  lt : ∀ id, s.nextId ≤ id → cntA s id + cntBo s a id + cntL id [st] = 0
+structure Room (φ : Nat → Nat) (s : BSt) (a : Nat) (st : Stmt) : Prop where
+  le : ∀ id, cntA s id + cntBo s a id + cntL id [st] + φ id ≤ 1
+  lt : ∀ id, s.nextId ≤ id → cntA s id + cntBo s a id + cntL id [st] + φ id = 0
   ua : UniqA s
 
-theorem InvB.of_mid {s sF : BSt} {a : Nat} {st : Stmt} {e : Nat → Nat} (r : Room s a st) (m : Mid s a sF e)
-    (hb : ∀ id, e id + cntBa sF a id ≤ cntL id [st]) : InvB sF := by
+theorem InvBφ.of_mid {s sF : BSt} {a : Nat} {st : Stmt} {e : Nat → Nat} (r : Room φ s a st) (m : Mid s a sF e)
+    (hb : ∀ id, e id + cntBa sF a id ≤ cntL id [st]) : InvBφ φ sF := by
   refine ⟨fun id => ?_, fun id hid => ?_, m.ua⟩
   · rw [tot_eq sF a id, m.bo id]
     have := m.ca id; have := hb id; have := r.le id; omega
@@ -140,8 +142,8 @@ theorem afterEnq_mid {s sM : BSt} {a : Nat} {e : Nat → Nat} (h : Mid s a sM e)
       rfl rfl rfl)
   · exact ⟨h, hb⟩
 
-theorem InvB.enqFlow {s : BSt} {a : Nat} {st : Stmt} (r : Room s a st) (cont : Nat) (first initial : Bool) :
-    InvB (enqFlow s a st cont first initial).1 := by
+theorem InvBφ.enqFlow {s : BSt} {a : Nat} {st : Stmt} (r : Room φ s a st) (cont : Nat) (first initial : Bool) :
+    InvBφ φ (enqFlow s a st cont first initial).1 := by
   unfold Backend.enqFlow
   have h1 := Mid.ensureCtx a r.ua
   generalize Backend.ensureCtx s a = e at h1 ⊢
@@ -161,7 +163,7 @@ theorem InvB.enqFlow {s : BSt} {a : Nat} {st : Stmt} (r : Room s a st) (cont : N
       have := cntBa_setPend_le h2.ua a _ (keepsId_pend .none) .none (fun _ => rfl) id
       simpa [pendL, cntL] using this
     obtain ⟨h4, hb4⟩ := afterEnq_mid h3 st cont hb3
-    exact InvB.of_mid r h4 (fun id => by rw [hb4 id]; simp)
+    exact InvBφ.of_mid r h4 (fun id => by rw [hb4 id]; simp)
   | false =>
     simp only [Bool.false_eq_true, if_false]
     have h2' : Mid s a s2 (fun _ => 0) := h2.mono (fun id => by simp)
@@ -172,9 +174,9 @@ theorem InvB.enqFlow {s : BSt} {a : Nat} {st : Stmt} (r : Room s a st) (cont : N
       · exact h2'.setTh_same ci f (hf _)
       · exact h2'
     have hfin : ∀ (sX : BSt) (p : Pend), Mid s a sX (fun _ => 0) →
-        (∀ id, cntL id (pendL p) ≤ cntL id [st]) → InvB (sX.setActor a (fun x => { x with pend := p })) := by
+        (∀ id, cntL id (pendL p) ≤ cntL id [st]) → InvBφ φ (sX.setActor a (fun x => { x with pend := p })) := by
       intro sX p hX hp
-      refine InvB.of_mid r (hX.setActor _ (keepsId_pend p)) (fun id => ?_)
+      refine InvBφ.of_mid r (hX.setActor _ (keepsId_pend p)) (fun id => ?_)
       have := cntBa_setPend_le hX.ua a _ (keepsId_pend p) p (fun _ => rfl) id
       have := hp id
       omega
@@ -204,53 +206,53 @@ theorem cntL_single_ne (id : Nat) (st : Stmt) (h : isLogKind st.kind = false ∨
 theorem Mid.refl {s : BSt} (a : Nat) (hu : UniqA s) : Mid s a s (fun _ => 0) :=
   ⟨rfl, hu, fun _ => rfl, fun _ => Nat.le_refl _⟩
 
-theorem InvB.frontCall {s : BSt} (a lgi : Nat) (kind : Kind) (lvl len cont : Nat) (dyn : Bool) (id : Nat)
-    (named : Bool) (hr : ∀ st : Stmt, st.kind = kind → st.id = id → Room s a st) :
-    InvB (frontCall s a lgi kind lvl len cont dyn id named).1 := by
+theorem InvBφ.frontCall {s : BSt} (a lgi : Nat) (kind : Kind) (lvl len cont : Nat) (dyn : Bool) (id : Nat)
+    (named : Bool) (hr : ∀ st : Stmt, st.kind = kind → st.id = id → Room φ s a st) :
+    InvBφ φ (frontCall s a lgi kind lvl len cont dyn id named).1 := by
   unfold Backend.frontCall
   dsimp only
   split
   · have r := hr { id := id, kind := kind, lg := lgi, lvl := lvl, ts := s.now,
                    size := stmtSize s.cfg kind id len dyn (s.lgOf lgi).gid, actor := a, named := named } rfl rfl
-    refine InvB.of_mid r ((Mid.refl a r.ua).setActor _ (fun _ => ⟨rfl, rfl⟩)) (fun id' => ?_)
+    refine InvBφ.of_mid r ((Mid.refl a r.ua).setActor _ (fun _ => ⟨rfl, rfl⟩)) (fun id' => ?_)
     have := cntBa_setPend_le r.ua a (fun x => { x with stallArmed := false, pend := .stall _ cont }) (fun _ => ⟨rfl, rfl⟩)
       (.stall { id := id, kind := kind, lg := lgi, lvl := lvl, ts := s.now,
                 size := stmtSize s.cfg kind id len dyn (s.lgOf lgi).gid, actor := a, named := named } cont)
       (fun _ => rfl) id'
     simpa [pendL] using this
-  · exact InvB.enqFlow (hr _ rfl rfl) cont true true
+  · exact InvBφ.enqFlow (hr _ rfl rfl) cont true true
 
 /-- room for a statement whose id was just allocated -/
-theorem InvB.room_fresh {s : BSt} (h : InvB s) (a : Nat) (st : Stmt) (hid : st.id = s.nextId) :
-    Room { s with nextId := s.nextId + 1 } a st := by
+theorem InvBφ.room_fresh {s : BSt} (h : InvBφ φ s) (a : Nat) (st : Stmt) (hid : st.id = s.nextId) :
+    Room φ { s with nextId := s.nextId + 1 } a st := by
   have hAB : ∀ id, cntA s id + cntBo s a id ≤ tot s id := fun id => by rw [tot_eq s a id]; omega
   refine ⟨fun id => ?_, fun id hge => ?_, h.ua⟩
-  · show cntA s id + cntBo s a id + cntL id [st] ≤ 1
+  · show cntA s id + cntBo s a id + cntL id [st] + φ id ≤ 1
     by_cases he : st.id = id
     · have := h.lt id (by omega); have := hAB id; have := cntL_single_le id st; omega
     · rw [cntL_single_ne id st (Or.inr he)]; have := h.uniq id; have := hAB id; omega
-  · show cntA s id + cntBo s a id + cntL id [st] = 0
+  · show cntA s id + cntBo s a id + cntL id [st] + φ id = 0
     have hge' : s.nextId + 1 ≤ id := hge
     rw [cntL_single_ne id st (Or.inr (by omega))]
     have := h.lt id (by omega); have := hAB id; omega
 
 /-- room for a control request (never counted) -/
-theorem InvB.room_ctl {s : BSt} (h : InvB s) (a : Nat) (st : Stmt) (hk : isLogKind st.kind = false) : Room s a st := by
+theorem InvBφ.room_ctl {s : BSt} (h : InvBφ φ s) (a : Nat) (st : Stmt) (hk : isLogKind st.kind = false) : Room φ s a st := by
   have hAB : ∀ id, cntA s id + cntBo s a id ≤ tot s id := fun id => by rw [tot_eq s a id]; omega
   refine ⟨fun id => ?_, fun id hge => ?_, h.ua⟩
   · rw [cntL_single_ne id st (Or.inl hk)]; have := h.uniq id; have := hAB id; omega
   · rw [cntL_single_ne id st (Or.inl hk)]; have := h.lt id hge; have := hAB id; omega
 
 /-- room for the statement the actor itself has parked -/
-theorem InvB.room_parked {s : BSt} (h : InvB s) (a : Nat) (x : Actor) (hx : s.actor a = some x) (st st' : Stmt)
-    (hp : pendL x.pend = [st]) (hst : ∀ id, cntL id [st'] = cntL id [st]) : Room s a st' := by
+theorem InvBφ.room_parked {s : BSt} (h : InvBφ φ s) (a : Nat) (x : Actor) (hx : s.actor a = some x) (st st' : Stmt)
+    (hp : pendL x.pend = [st]) (hst : ∀ id, cntL id [st'] = cntL id [st]) : Room φ s a st' := by
   refine ⟨fun id => ?_, fun id hge => ?_, h.ua⟩
   · have := cntBa_ge hx id; rw [hp] at this
     have := h.uniq id; rw [tot_eq s a id] at this; rw [hst]; omega
   · have := cntBa_ge hx id; rw [hp] at this
     have := h.lt id hge; rw [tot_eq s a id] at this; rw [hst]; omega
 
-theorem InvB.resume {s : BSt} (h : InvB s) (a : Nat) : InvB (resume s a).1 := by
+theorem InvBφ.resume {s : BSt} (h : InvBφ φ s) (a : Nat) : InvBφ φ (resume s a).1 := by
   unfold Backend.resume
   split
   · next st cont hp =>
@@ -258,23 +260,23 @@ theorem InvB.resume {s : BSt} (h : InvB s) (a : Nat) : InvB (resume s a).1 := by
     | none => simp [hx] at hp
     | some x =>
       simp only [hx, Option.map_some, Option.some.injEq] at hp
-      exact InvB.enqFlow (h.room_parked a x hx st st (by simp [hp, pendL]) (fun _ => rfl)) cont true false
+      exact InvBφ.enqFlow (h.room_parked a x hx st st (by simp [hp, pendL]) (fun _ => rfl)) cont true false
   · next st cont hp =>
     cases hx : s.actor a with
     | none => simp [hx] at hp
     | some x =>
       simp only [hx, Option.map_some, Option.some.injEq] at hp
       split
-      · exact InvB.enqFlow (h.room_parked a x hx st { st with ts := s.now } (by simp [hp, pendL]) (fun _ => rfl)) cont true false
-      · exact InvB.enqFlow (h.room_parked a x hx st st (by simp [hp, pendL]) (fun _ => rfl)) cont false false
+      · exact InvBφ.enqFlow (h.room_parked a x hx st { st with ts := s.now } (by simp [hp, pendL]) (fun _ => rfl)) cont true false
+      · exact InvBφ.enqFlow (h.room_parked a x hx st st (by simp [hp, pendL]) (fun _ => rfl)) cont false false
   · next f hp =>
     split
     · cases hx : s.actor a with
       | none => simp [hx] at hp
       | some x =>
         simp only [hx, Option.map_some, Option.some.injEq] at hp
-        have r : Room s a { (default : Stmt) with kind := .flushBt } := h.room_ctl a _ rfl
-        refine InvB.of_mid r ((Mid.refl a h.ua).setActor _ (keepsId_pend _)) (fun id => ?_)
+        have r : Room φ s a { (default : Stmt) with kind := .flushBt } := h.room_ctl a _ rfl
+        refine InvBφ.of_mid r ((Mid.refl a h.ua).setActor _ (keepsId_pend _)) (fun id => ?_)
         have h0 := cntBa_setPend_le h.ua a _ (keepsId_pend .none) .none (fun _ => rfl) id
         have h1 : cntL id (pendL Pend.none) = 0 := rfl
         have h2 : cntBa (s.setActor a (fun x => { x with pend := Pend.none })) a id = 0 := by omega
@@ -293,21 +295,21 @@ theorem cntB_setActor_same (s : BSt) (a : Nat) (f : Actor → Actor) (hp : ∀ x
   simp only [Function.comp]
   split <;> simp [hp]
 
-theorem InvB.setActorMisc {s : BSt} (h : InvB s) (a : Nat) (f : Actor → Actor) (hf : KeepsId f)
-    (hp : ∀ x, (f x).pend = x.pend) : InvB (s.setActor a f) :=
+theorem InvBφ.setActorMisc {s : BSt} (h : InvBφ φ s) (a : Nat) (f : Actor → Actor) (hf : KeepsId f)
+    (hp : ∀ x, (f x).pend = x.pend) : InvBφ φ (s.setActor a f) :=
   ⟨fun id => by unfold tot; rw [cntB_setActor_same s a f hp]; exact h.uniq id,
    fun id hid => by unfold tot; rw [cntB_setActor_same s a f hp]; exact h.lt id hid,
    h.ua.setActor a f hf⟩
 
-theorem InvB.withLogger {s : BSt} (h : InvB s) (a gid : Nat) (k : Nat → BSt × String)
-    (hk : ∀ lgi, InvB (k lgi).1) : InvB (withLogger s a gid k).1 := by
+theorem InvBφ.withLogger {s : BSt} (h : InvBφ φ s) (a gid : Nat) (k : Nat → BSt × String)
+    (hk : ∀ lgi, InvBφ φ (k lgi).1) : InvBφ φ (withLogger s a gid k).1 := by
   unfold Backend.withLogger
   split
   · unfold noteCall
     exact (hk _).setActorMisc a _ (fun _ => ⟨rfl, rfl⟩) (fun _ => rfl)
   · exact h
 
-theorem InvB.bumpId {s : BSt} (h : InvB s) : InvB { s with nextId := s.nextId + 1 } :=
+theorem InvBφ.bumpId {s : BSt} (h : InvBφ φ s) : InvBφ φ { s with nextId := s.nextId + 1 } :=
   ⟨h.uniq, fun id hid => h.lt id (by have : s.nextId + 1 ≤ id := hid; omega), h.ua⟩
 
 theorem filter_len_map_le {α} (l : List α) (c : α → Bool) (g : α → α) (hg : ∀ x, c (g x) = true → c x = true) :
@@ -323,13 +325,13 @@ theorem filter_len_map_le {α} (l : List α) (c : α → Bool) (g : α → α) (
       · rw [List.filter_cons_of_pos h2]; simp; omega
       · rw [List.filter_cons_of_neg h2]; exact ih
 
-theorem InvB.front {s : BSt} (h : InvB s) (f : FOp) : InvB (applyFront s f).1 := by
-  have hmisc : ∀ s' : BSt, s'.ths = s.ths → s'.actors = s.actors → s'.nextId = s.nextId → InvB s' :=
+theorem InvBφ.front {s : BSt} (h : InvBφ φ s) (f : FOp) : InvBφ φ (applyFront s f).1 := by
+  have hmisc : ∀ s' : BSt, s'.ths = s.ths → s'.actors = s.actors → s'.nextId = s.nextId → InvBφ φ s' :=
     fun s' h1 h2 h3 => h.of_same h2 h3 (fun id => cntA_of_ths h1 id)
   have hlog : ∀ (a lgi lvl len cont : Nat) (dyn named : Bool),
-      InvB (Backend.frontCall { s with nextId := s.nextId + 1 } a lgi .log lvl len cont dyn s.nextId named).1 :=
+      InvBφ φ (Backend.frontCall { s with nextId := s.nextId + 1 } a lgi .log lvl len cont dyn s.nextId named).1 :=
     fun a lgi lvl len cont dyn named =>
-      InvB.frontCall a lgi .log lvl len cont dyn s.nextId named (fun st _ hid => h.room_fresh a st hid)
+      InvBφ.frontCall a lgi .log lvl len cont dyn s.nextId named (fun st _ hid => h.room_fresh a st hid)
   cases f with
   | tick dt => exact hmisc _ rfl rfl rfl
   | tstart a =>
@@ -360,7 +362,7 @@ theorem InvB.front {s : BSt} (h : InvB s) (f : FOp) : InvB (applyFront s f).1 :=
     simp only [applyFront]
     split
     · exact h
-    · have h1 : InvB (s.setActor a (fun x => { x with alive := false })) := by
+    · have h1 : InvBφ φ (s.setActor a (fun x => { x with alive := false })) := by
         have hcb : ∀ id, cntB (s.setActor a (fun x => { x with alive := false })) id = cntB s id :=
           fun id => cntB_setActor_same s a (fun x => { x with alive := false }) (fun _ => rfl) id
         refine ⟨fun id => by unfold tot; rw [hcb]; exact h.uniq id,
@@ -371,7 +373,7 @@ theorem InvB.front {s : BSt} (h : InvB s) (f : FOp) : InvB (applyFront s f).1 :=
         · simp at hx
         · exact hx
       split
-      · exact InvB.of_same (s := (s.setActor a (fun x => { x with alive := false })).setTh _ (fun t => { t with valid := false }))
+      · exact InvBφ.of_same (s := (s.setActor a (fun x => { x with alive := false })).setTh _ (fun t => { t with valid := false }))
           (h1.setTh_same _ _ rfl) rfl rfl (fun _ => rfl)
       · exact h1
   | resume a =>
@@ -410,26 +412,26 @@ theorem InvB.front {s : BSt} (h : InvB s) (f : FOp) : InvB (applyFront s f).1 :=
     · exact h.bumpId
   | initBt a g cap fl =>
     simp only [applyFront]
-    exact h.withLogger _ _ _ (fun lgi => InvB.frontCall _ _ _ _ _ _ _ _ _
+    exact h.withLogger _ _ _ (fun lgi => InvBφ.frontCall _ _ _ _ _ _ _ _ _
       (fun st hk _ => h.room_ctl a st (by rw [hk]; rfl)))
   | flushBt a g =>
     simp only [applyFront]
-    exact h.withLogger _ _ _ (fun lgi => InvB.frontCall _ _ _ _ _ _ _ _ _
+    exact h.withLogger _ _ _ (fun lgi => InvBφ.frontCall _ _ _ _ _ _ _ _ _
       (fun st hk _ => h.room_ctl a st (by rw [hk]; rfl)))
   | flush a g =>
     simp only [applyFront]
     apply h.withLogger
     intro lgi
-    have h1 : InvB { s with nextFlag := s.nextFlag + 1 } := hmisc _ rfl rfl rfl
-    exact InvB.frontCall _ _ _ _ _ _ _ _ _ (fun st hk _ => h1.room_ctl a st (by rw [hk]; rfl))
+    have h1 : InvBφ φ { s with nextFlag := s.nextFlag + 1 } := hmisc _ rfl rfl rfl
+    exact InvBφ.frontCall _ _ _ _ _ _ _ _ _ (fun st hk _ => h1.room_ctl a st (by rw [hk]; rfl))
   | removeBlocking a g =>
     simp only [applyFront]
     split
     · exact h
     · apply h.withLogger
       intro lgi
-      have h1 : InvB (dropName { s with nextFlag := s.nextFlag + 1 } g) := hmisc _ rfl rfl rfl
-      exact InvB.frontCall _ _ _ _ _ _ _ _ _ (fun st hk _ => h1.room_ctl a st (by rw [hk]; rfl))
+      have h1 : InvBφ φ (dropName { s with nextFlag := s.nextFlag + 1 } g) := hmisc _ rfl rfl rfl
+      exact InvBφ.frontCall _ _ _ _ _ _ _ _ _ (fun st hk _ => h1.room_ctl a st (by rw [hk]; rfl))
   | remove a g =>
     simp only [applyFront]
     split
@@ -462,10 +464,10 @@ theorem InvB.front {s : BSt} (h : InvB s) (f : FOp) : InvB (applyFront s f).1 :=
     exact h.of_same c.actors c.nextId (fun id => cntA_of_ths c.ths id)
   | query => exact h
 
-theorem InvB.of_core {s s' : BSt} (h : InvB s) (c : Core s s') : InvB s' :=
+theorem InvBφ.of_core {s s' : BSt} (h : InvBφ φ s) (c : Core s s') : InvBφ φ s' :=
   h.of_same c.actors c.nextId (fun id => cntA_of_ths c.ths id)
 
-theorem InvB.closed : Closed InvB where
+theorem InvBφ.closed : Closed (InvBφ φ) where
   frame := fun _ _ h f => h.of_core f.core
   refresh := fun s h => by
     unfold refreshCache; split
@@ -510,7 +512,44 @@ theorem InvB.closed : Closed InvB where
       · intro _; rfl
   failReset := fun s i h _ => by
     unfold PA.failReset
-    exact InvB.of_same (h.setTh_same i _ rfl) rfl rfl (fun _ => rfl)
+    exact InvBφ.of_same (h.setTh_same i _ rfl) rfl rfl (fun _ => rfl)
   front := fun _ f h => h.front f
+
+theorem InvB.toφ {s : BSt} (h : InvB s) : InvBφ (fun _ => 0) s := ⟨h.uniq, h.lt, h.ua⟩
+theorem InvBφ.toB {s : BSt} (h : InvBφ (fun _ => 0) s) : InvB s := ⟨h.uniq, h.lt, h.ua⟩
+
+theorem InvB.closed : Closed InvB := (InvBφ.closed (φ := fun _ => 0)).congr (fun _ => ⟨InvBφ.toB, InvB.toφ⟩)
+
+/-- one id counted as taken by a phantom -/
+def phantom (id0 : Nat) : Nat → Nat := fun id => if id = id0 then 1 else 0
+
+/-- the id lies below `nextId` but no statement carries it: neither an accepted history nor a parked call -/
+structure Unplaced (s : BSt) (id0 : Nat) : Prop where
+  lt : id0 < s.nextId
+  none : tot s id0 = 0
+
+theorem InvBφ.of_unplaced {s : BSt} {id0 : Nat} (h : InvB s) (u : Unplaced s id0) : InvBφ (phantom id0) s := by
+  refine ⟨fun id => ?_, fun id hid => ?_, h.ua⟩
+  · unfold phantom; split
+    · next e => rw [e, u.none]; exact Nat.le_refl _
+    · have := h.uniq id; omega
+  · unfold phantom; split
+    · next e => have := u.lt; omega
+    · have := h.lt id hid; omega
+
+theorem InvBφ.unplaced {s : BSt} {id0 : Nat} (h : InvBφ (phantom id0) s) : Unplaced s id0 := by
+  have h1 := h.uniq id0
+  simp only [phantom, if_true] at h1
+  refine ⟨?_, by omega⟩
+  by_cases hlt : id0 < s.nextId
+  · exact hlt
+  · have := h.lt id0 (by omega)
+    simp only [phantom, if_true] at this; omega
+
+/-- **an unplaced id stays unplaced for ever**: ids are allocated once and a statement object moves only from a
+    parked call into an accepted history -/
+theorem Unplaced.run {s : BSt} {id0 : Nat} (h : InvB s) (u : Unplaced s id0) (ops : List Op) :
+    Unplaced (runOps s ops) id0 :=
+  (runOps_closed InvBφ.closed ops s (InvBφ.of_unplaced h u)).unplaced
 
 end Backend.PA
